@@ -268,11 +268,20 @@ def stdBinOf (binDir : String) (name : String) : String :=
 def stdObjOf (name : String) : String :=
   if name.endsWith ".c" then (name.dropEnd 2).toString else name
 
+/-- what `inherited_program_newer` reads from a loaded program: the files named in its line number information
+    (its source and every file it included) and the names of the programs it inherits -/
+structure LoadedProg where
+  files : List String
+  inherits : List String
+  deriving Repr, BEq, Inhabited
+
 structure World where
   files : List (String × Nat) := []       -- path relative to the mudlib ↦ st_mtime (sources, includes, binaries)
   bins : List (String × BinFile) := []    -- binary path ↦ what the decision reads from it
   loaded : List String := []              -- names of loaded objects ("dir/file")
-  configId : Nat := 0                     -- config_id as sampled by init_binaries()
+  progs : List (String × LoadedProg) := []  -- program name ("dir/file.c") ↦ the program in memory
+  configId : Nat := 0                     -- config_id as sampled when the simul_efun object was loaded
+  simulPath : String := ""                -- simul_efun_path ("" = none configured)
   binOf : String → String := stdBinOf "c17bin"   -- source name ↦ path of its binary (SaveBinaryDir = /c17bin)
   objOf : String → String := stdObjOf            -- source name ↦ object name
 
@@ -296,12 +305,29 @@ inductive Decision where
   | needs (inh : String)
   deriving Repr, BEq, DecidableEq
 
+/-- `inherited_program_newer (mtime, prog)`: a file the program was built from, its saved binary, or the same for a
+    program it inherits, is newer than `mtime`.  The recursion of the C code follows program pointers (a finite acyclic
+    graph); the model follows names with fuel, and running out of fuel or meeting a name without a program counts as
+    "newer" (the binary is then not used), so a `false` answer always comes from a completed walk. -/
+def treeNewer (w : World) (mtime : Nat) : Nat → String → Bool
+  | 0, _ => true
+  | fuel + 1, name =>
+    match w.progs.lookup name with
+    | none => true
+    | some lp =>
+      lp.files.any (fun f => checkTimes w mtime f == 0) || checkTimes w mtime (binPath w name) == 0 ||
+        lp.inherits.any (fun p => treeNewer w mtime fuel p)
+
+/-- more than the driver's inherit chain limit -/
+def treeFuel : Nat := 64
+
 /-- the loop over the inherit names in load_binary -/
 def checkInherits (w : World) (mtime : Nat) : List String → Decision
   | [] => .use
   | inh :: rest =>
     if checkTimes w mtime inh ≤ 0 ∨ checkTimes w mtime (binPath w inh) = 0 then .stale "inherited"
     else if !(w.loaded.contains (objName w inh)) then .needs inh
+    else if treeNewer w mtime treeFuel inh then .stale "behind-inherited"
     else checkInherits w mtime rest
 
 def magicId : String := Gen.C17.magicId
@@ -315,6 +341,7 @@ def loadBinary (w : World) (name : String) : Decision :=
     else if b.magic ≠ magicId then .stale "magic"
     else if b.driverId ≠ driverId then .stale "driver"
     else if b.configId ≠ w.configId then .stale "config"
+    else if w.simulPath ≠ "" ∧ checkTimes w mtime w.simulPath = 0 then .stale "simul"
     else if b.includes.any (fun i => checkTimes w mtime i ≤ 0) then .stale "include"
     else if b.name.length > 0 ∧ b.name ≠ name then .stale "name"
     else checkInherits w mtime b.inherits
@@ -352,13 +379,15 @@ def loadObject (s : Sys) (name : String) : Nat → Sys × Bool
     | some _, some d =>
       let dec := loadBinary s.w name
       let s := { s with evs := Ev.lb name dec :: s.evs }
+      let lp : LoadedProg := { files := name :: d.includes, inherits := d.inherits }
       let retryWith (s : Sys) (inh : String) : Sys × Bool :=
         let (s, ok) := loadObject s inh fuel
         if !ok then (s, false)
         else if s.w.loaded.contains (objName s.w name) then (s, true)
         else loadObject s name fuel
       match dec with
-      | .use => ({ s with w := { s.w with loaded := objName s.w name :: s.w.loaded } }, true)
+      | .use => ({ s with w := { s.w with loaded := objName s.w name :: s.w.loaded,
+                                          progs := (name, lp) :: s.w.progs.filter (·.1 != name) } }, true)
       | .needs inh => retryWith s inh
       | .stale _ =>
         match d.inherits.find? (fun i => !(s.w.loaded.contains (objName s.w i))) with
@@ -373,13 +402,19 @@ def loadObject (s : Sys) (name : String) : Nat → Sys × Bool
                                        bins := (bp, b) :: s.w.bins.filter (·.1 != bp) },
                        vnow := s.vnow + 1, evs := Ev.sv name s.vnow d.includes :: s.evs }
             else s
-          ({ s with w := { s.w with loaded := objName s.w name :: s.w.loaded } }, true)
+          ({ s with w := { s.w with loaded := objName s.w name :: s.w.loaded,
+                                    progs := (name, lp) :: s.w.progs.filter (·.1 != name) } }, true)
     | _, _ => ({ s with evs := Ev.loadfail name :: s.evs }, false)
 
-/-- `init_binaries ()`: config_id = st_mtime of the simul_efun file (0 when it cannot be stat'ed) -/
-def sampleConfigId (w : World) (simulFile : String) : Nat :=
+/-- the mudlib-relative name of the configured simul_efun file (leading slashes dropped, ".c" optional) -/
+def simulPathOf (simulFile : String) : String :=
   let nm := (simulFile.dropWhile (· == '/')).toString
-  let nm := if nm.endsWith ".c" then nm else nm ++ ".c"
-  (w.mtime nm).getD 0
+  if nm.endsWith ".c" then nm else nm ++ ".c"
+
+/-- `binaries_simul_efun_loaded ()` (start-up and every (re)load of the simul_efun object):
+    config_id = st_mtime of the simul_efun file (0 when it cannot be stat'ed) -/
+def sampleConfigId (w : World) (simulFile : String) : World :=
+  let nm := simulPathOf simulFile
+  { w with configId := (w.mtime nm).getD 0, simulPath := nm }
 
 end NV.C17
